@@ -143,6 +143,18 @@ pub fn run(id: &str, tier: &str) -> i32 {
             report.absorb(r);
         }
     }
+    // 2c. bounded-exhaustive shape table (operation kind x operand/receiver shape x statement context x configuration)
+    if matches!(id, "C02" | "C03" | "C04" | "C05" | "C06" | "C08" | "C09" | "C12" | "C15") && std::env::var("VERIF_NO_ENUM").is_err() {
+        let step = if tier == "thorough" { 1 } else { 3 };
+        let offset = (seed % 3) as usize;
+        let cases = crate::enumerate::cases(step, if step == 1 { 0 } else { offset });
+        report.stats.extra.insert("shape_table".into(), serde_json::json!({"size": crate::enumerate::table_size(), "evaluated": cases.len(), "complete": step == 1}));
+        if step == 1 {
+            report.exhaustive = false; // the table is complete, the property's quantifier is not: see `shape_table`
+        }
+        let r = engine::run_explicit(plans[0].check.as_ref(), cases, threads);
+        report.absorb(r);
+    }
     // 3. generated cases
     let only: Option<usize> = std::env::var("VERIF_PLAN").ok().and_then(|s| s.parse().ok());
     for (i, plan) in plans.iter().enumerate() {
